@@ -65,6 +65,17 @@ class _Rewriter(ast.NodeTransformer):
             return ast.copy_location(new, node)
         return node
 
+    def visit_Import(self, node):
+        # `import struct` -> additionally bind the name to the facade (symrun/structmod.py), so that functions and precompiled Struct objects the
+        # module binds at import time still understand symbolic operands; with concrete operands the facade is the real module
+        out = [node]
+        for al in node.names:
+            if al.name == "struct":
+                self._rec(node, "import struct")
+                out.append(ast.copy_location(ast.Assign(targets=[ast.Name(id=al.asname or "struct", ctx=ast.Store())],
+                                                        value=ast.Name(id="__sym_struct__", ctx=ast.Load())), node))
+        return out if len(out) > 1 else node
+
     def visit_Subscript(self, node):
         self.generic_visit(node)
         if isinstance(node.ctx, ast.Load) and not isinstance(node.slice, ast.Slice):
@@ -161,8 +172,9 @@ def _helpers():
             raise KeyError(key)
         return obj[key]
 
+    from . import structmod
     return dict(__sym_call__=sym_call, __sym_in__=sym_in, __sym_not__=sym_not,
-                __sym_fmt__=sym_fmt, __sym_getitem__=sym_getitem)
+                __sym_fmt__=sym_fmt, __sym_getitem__=sym_getitem, __sym_struct__=structmod)
 
 
 class _Loader(importlib.abc.SourceLoader):
